@@ -57,8 +57,11 @@ def checkGc (j : Json) : Except String Verdict := do
       else
         let ok := given.any fun (e, gs, a) => e == email && gs == sorted && some a == res
         if !ok then
-          let comma := sorted.any (fun g => g.contains ',') || given.any (fun (_, gs, _) => gs.any (fun g => g.contains ','))
-          v := v.mon "C17" "served_answer_was_given" idx s!"{email} {sorted}" (if comma then "groupcache-key-comma" else "")
+          -- footprint of the listed finding: the answer repeated is the one given to the same e-mail for a *different* group
+          -- list whose comma-joined key is the same string (["g1,g2"] / ["g1","g2"], [""] / [])
+          let sameKey := given.any fun (e, gs, a) => e == email && gs != sorted && some a == res &&
+            ",".intercalate gs == ",".intercalate sorted
+          v := v.mon "C17" "served_answer_was_given" idx s!"{email} {sorted}" (if sameKey then "groupcache-key-comma" else "")
       if called && dirErr && !err then v := v.mon "C17" "error_swallowed" idx
       s := s'
     else
